@@ -1,6 +1,8 @@
 import Upf.Proofs.AgentMark
 import Upf.Proofs.AgentQos
 import Upf.Proofs.GenEqAgent
+import Upf.Proofs.History
+import Upf.Proofs.ModRem
 /-!
 # C09 — QoS is enforced as signalled; the session-wide limiter is chosen soundly (BESS part)
 
@@ -67,6 +69,26 @@ theorem mark_stable_fails :
 `burst_exact` / `burst_lower` speak about the code's function -/
 theorem burst_is_the_code (kbps ms : BitVec 64) :
     (Gen.Leaf.calcBurstSizeFromRate kbps ms).toNat = calcBurst kbps.toNat ms.toNat := Agent.calcBurst_gen kbps ms
+
+/-- **what is programmed is what is stored**: along every history in the envelope (`Agent.Inv`), for every stored session whose rules have
+pairwise different keys, the two entries `bess.addQER` builds for each of its QERs (gate, rates, bursts of `qerHalf` / `bursts`, uplink and
+downlink) lie in the lookup table its level selects, under the QER's key — for application QERs and the session-wide one alike -/
+theorem stored_qer_is_programmed (cfg : Cfg) (w : World) (hI : Inv cfg w) (s : Session) (hs : s ∈ allSessions w) (hnd : SelfNodup cfg s)
+    (q : Qer) (hq : q ∈ s.qers) (e : String × String) (he : e ∈ qerEntries cfg q) :
+    (w.tables.tab (if q.session then Tb.sess else Tb.app)).get e.1 = some e.2 := by
+  by_cases hsess : q.session = true
+  · rw [if_pos hsess]
+    have hm : e ∈ s.kv cfg .sess := by
+      show e ∈ sessQerKV cfg s.qers
+      unfold sessQerKV
+      exact List.mem_flatMap.mpr ⟨q, List.mem_filter.mpr ⟨hq, by simpa using hsess⟩, he⟩
+    exact (hI.img .sess e.1 e.2).mpr ⟨s, hs, (lastVal_of_nodup _ (hnd .sess) e.1 e.2).mpr hm⟩
+  · rw [if_neg hsess]
+    have hm : e ∈ s.kv cfg .app := by
+      show e ∈ appQerKV cfg s.qers
+      unfold appQerKV
+      exact List.mem_flatMap.mpr ⟨q, List.mem_filter.mpr ⟨hq, by simpa using hsess⟩, he⟩
+    exact (hI.img .app e.1 e.2).mpr ⟨s, hs, (lastVal_of_nodup _ (hnd .app) e.1 e.2).mpr hm⟩
 
 -- non-vacuity
 example : qerHalf 0 1000 0 7 9 = (0, 1, 125000) ∧ qerHalf 1 1000 0 7 9 = (5, 7, 9) := by decide
